@@ -20,12 +20,35 @@ UNIMPL_NOTE = ["$/setTrace", "workspace/didChangeConfiguration", "$/cancelReques
                "textDocument/didClose", "custom/note"]
 
 
+ODD_URIS = ["untitled:Untitled-1", "http://example.com/x.st", "file:///w/never-opened.st",
+            "file:///w/with%20space/my%20prog.st", "file:///w/caf%C3%A9.st", "file:///w/caf%E9.st", "file:///w/%FF%FE.st",
+            "file://host/share/a.st", "file:", "file:///", "file:///w/a.st?x=1#frag", "file:///w/" + "d/" * 200 + "x.st",
+            "file:///C:/Users/x/a.st", "file:///w/%00.st", "FILE:///W/A.ST", "file:///w/a.st/"]
+# parameters that are well-formed JSON-RPC (an object, an array, or none) but not what the method takes
+BAD_PARAMS = [{}, [], None, [1, 2], {"textDocument": {}}, {"textDocument": {"uri": 5}}, {"textDocument": {"uri": "not a uri"}},
+              {"textDocument": {"uri": "::::"}}, {"textDocument": None}, {"textDocument": {"uri": "file:///w/a.st"}},
+              {"textDocument": {"uri": "file:///w/a.st", "version": "one"}, "contentChanges": [{"text": "x"}]},
+              {"textDocument": {"uri": "file:///w/a.st", "version": 1}, "contentChanges": {"text": "x"}},
+              {"textDocument": {"uri": "file:///w/a.st", "version": 1}, "contentChanges": [{"range": 1}]},
+              {"textDocument": {"uri": "file:///w/a.st", "languageId": "st", "version": 1}}, {"unknown": True}]
+BAD_METHODS = ["textDocument/semanticTokens/full", "textDocument/didOpen", "textDocument/didChange", "initialized", "exit-not",
+               "textDocument/hover"]
+
+
 def gen_ops(rng, docs, n):
     uris = ["file:///w/a.st", "file:///w/b.st", "file:///w/dir/c.st"]
-    odd = ["untitled:Untitled-1", "http://example.com/x.st", "file:///w/never-opened.st"]
+    odd = ODD_URIS
     ops = []
     for _ in range(n):
-        k = rng.randrange(12)
+        k = rng.randrange(14)
+        if k == 12:
+            m = rng.choice(BAD_METHODS)
+            ops.append(("odd-params", m, rng.choice(BAD_PARAMS), m == "textDocument/semanticTokens/full" or
+                        m == "textDocument/hover" or rng.random() < 0.3))
+            continue
+        if k == 13:
+            ops.append(("tokens", rng.choice(uris)))
+            continue
         if k < 2:
             ops.append(("open", rng.choice(uris), rng.choice(docs)))
         elif k < 4:
@@ -50,6 +73,8 @@ def gen_ops(rng, docs, n):
 
 
 def op_class(op):
+    if op[0] == "odd-params":
+        return "odd-params-" + ("request" if op[3] else "notification")
     if op[0] == "change":
         return "change%d" % min(len(op[2]), 2)
     if op[0] in ("unimpl-request", "unimpl-notification"):
@@ -85,6 +110,12 @@ def run_session(ops, tmp):
             sent_ids[rid] = op_class(op)
         elif op[0] == "unimpl-notification":
             s.notify(op[1], {"textDocument": {"uri": op[2]}, "value": "off", "id": 1})
+        elif op[0] == "odd-params":
+            if op[3]:
+                rid = s.request(op[1], op[2])
+                sent_ids[rid] = op_class(op)
+            else:
+                s.notify(op[1], op[2])
         elif op[0] == "client-response":
             if op[1] == "result":
                 s.respond(9000 + i, result=None)
@@ -96,7 +127,11 @@ def run_session(ops, tmp):
         died_at = len(ops)
     resp, rc = (None, None)
     if s.p.poll() is None:
-        resp, rc = s.shutdown(timeout=15.0)
+        # the shutdown request takes no parameters: clients send none, null, or an empty object / array
+        variants = [None, lsp.OMIT, {}, []]
+        sp = variants[len(repr(ops)) % 4]
+        order.append("shutdown-params:" + ("omitted" if sp is lsp.OMIT else repr(sp)))
+        resp, rc = s.shutdown(timeout=15.0, params=sp)
     else:
         rc = s.p.poll()
     # collect everything received
@@ -169,6 +204,9 @@ def shard(shard_i, nshards, payload):
             res.evaluations += 1
             for o in ops:
                 res.seen("op_classes", op_class(o))
+            for d_, m_ in trace:
+                if d_ == "send" and m_.get("method") == "shutdown":
+                    res.seen("op_classes", "shutdown-params:" + ("omitted" if "params" not in m_ else repr(m_["params"])))
             res.count("messages", len(trace))
             case = {"ops": ops}
             bad = False
